@@ -34,7 +34,7 @@ FLOORS = {"quick": {"demux_packets": 8000, "fib_empty_table_cases": 150, "defaul
                        "hub_with_ports": 4000, "hub_without_ports": 4000, "splitter_packets": 16000, "fattree_built": 6000,
                        "fib_walks": 160000, "reverse_walks": 40000, "e2e_packets": 160000, "e2e_hops": 1000000,
                        "e2e_shared_class_runs": 2000, "e2e_SP": 600, "e2e_WFQ": 600, "e2e_DRR": 600, "e2e_VirtualClock": 600}}
-KEYS = tuple(FLOORS["quick"].keys()) + ("demux_reconfigurations", "splitter_rewriting_receivers", "fattree_twin_trees", "fib_tables_with_default_route", "hub_synchronous_answers", "hub_endpoints_renamed_after_attach")
+KEYS = tuple(FLOORS["quick"].keys()) + ("demux_reconfigurations", "splitter_rewriting_receivers", "fattree_twin_trees", "fib_tables_with_default_route", "hub_synchronous_answers", "hub_endpoints_renamed_after_attach", "fattree_flow_dicts_rekeyed", "hub_ports_prewired")
 # floors for the situations added with the later rounds of seeded changes (evidence that they were really exercised)
 FLOORS["quick"].update({'fib_tables_with_default_route': 70, 'hub_synchronous_answers': 200})
 FLOORS["thorough"].update({'fib_tables_with_default_route': 350, 'hub_synchronous_answers': 1000})
@@ -268,6 +268,10 @@ def hub_case(rng, stats, bad):
     if with_ports:
         ports = [Wire(env, lambda: 0.5) if rng.random() < 0.7 else None for _ in range(n)]
         stats["hub_with_ports"] += 1
+        for pt in ports:
+            if pt is not None and rng.random() < 0.3:
+                pt.out = Dev("wired-elsewhere-before")        # a port device reused from an earlier set-up
+                stats["hub_ports_prewired"] += 1
     else:
         stats["hub_without_ports"] += 1
     try:
@@ -477,6 +481,11 @@ def fattree_case(rng, stats, bad, k, e2e):
                 any(not G.has_edge(a, b) for a, b in zip(fl.path, fl.path[1:])):
             bad("fattree-flow-path-not-shortest", "a generated flow's path is not a shortest path between its hosts", fl.path)
             return False
+    if not e2e and rng.random() < 0.3:
+        # the caller keeps a selection of the flows in a dict of its own, keyed by something else than the flow ids
+        chosen = [fl for fl in flows.values() if rng.random() < 0.7] or list(flows.values())
+        flows = {f"job-{j}": fl for j, fl in enumerate(chosen)}
+        stats["fattree_flow_dicts_rekeyed"] += 1
     ft.generate_fib(flows, tcp=tcp)
     if rng.random() < 0.35:
         # a second, independent tree of the same size gets its own flows and tables: this must not disturb the first
